@@ -10,8 +10,7 @@ full statement is kept as `C12_helpers_full`, refuted on a witness, and what is 
 holds on the pinned tree. The analytic theorems (`f64_round_err`, `scale_roundtrip_rounded`, `C12_datetime`,
 `C12_semicircles`) follow the repair.
 
-PROPERTY THEOREMS (audited by ./check): C12_helpers_full_fails, C12_typed_full_fails, C12_unit_identity,
-C12_pow2_uint8_partial
+PROPERTY THEOREMS (audited by ./check): C12_F07_witness_fixed, C12_typed_full_fails, C12_unit_identity
 -/
 namespace Fit.C12
 open Fit.F64 Fit.ScaleOffset Fit.Value
@@ -34,12 +33,8 @@ def C12_helpers_full : Prop :=
   ∀ (ty : IntTy) (r : Nat) (p : Nat × Nat), ty.bits ≤ 32 → r < 2 ^ ty.bits → p ∈ profilePairs →
     helperRT ty r p.1 p.2 = r
 
-/-- F07: uint16 29 at scale 100 comes back as 28 (0.29 × 100 = 28.999999999999996, truncated). -/
-theorem C12_helpers_full_fails : ¬ C12_helpers_full := by
-  intro h
-  have := h .u16 29 (0x4059000000000000, 0) (by decide) (by decide) (by decide +kernel)
-  revert this
-  decide +kernel
+/-- The witness of F07 after the repair (fix commit in /repo): uint16 29 at scale 100 comes back as 29. -/
+theorem C12_F07_witness_fixed : helperRT .u16 29 0x4059000000000000 0 = 29 := by decide +kernel
 
 /-- FULL STATEMENT for the generated accessors (false: they truncate in their own code). -/
 def C12_typed_full : Prop :=
@@ -59,11 +54,5 @@ theorem C12_unit_identity (v : Value) (bt : Nat) (h : ∀ x, v ≠ .float64 x) (
   have hu : isUnit oneBits 0 = true := by decide +kernel
   simp only [applyValue, hu, if_true]
   cases v <;> simp_all [discardValue]
-
-/-- Partial result of the finding state: a power-of-two scale is exact (kernel evaluation of the model on a
-few values; the general statement follows the repair, see `scale_roundtrip_rounded`). -/
-theorem C12_pow2_uint8_partial :
-    ∀ r ∈ [0, 1, 3, 29, 127, 128, 254, 255], helperRT .u8 r 0x4030000000000000 0 = r := by
-  decide +kernel
 
 end Fit.C12
